@@ -23,6 +23,7 @@ type Recorder struct {
 	N    int
 	Base int64 // unix second that maps to relative time 0
 	Keep bool  // also keep events in memory
+	Hold bool  // keep events in memory only, until Release
 	Evs  []Ev
 	Cnt  map[string]int
 }
@@ -81,6 +82,15 @@ func (r *Recorder) Emit(e Ev) {
 		panic(err)
 	}
 	r.mu.Lock()
+	if r.Hold {
+		r.Evs = append(r.Evs, e)
+		r.N++
+		if op, ok := e["op"].(string); ok {
+			r.Cnt[op]++
+		}
+		r.mu.Unlock()
+		return
+	}
 	r.w.Write(b)
 	r.w.WriteByte('\n')
 	r.N++
@@ -91,6 +101,39 @@ func (r *Recorder) Emit(e Ev) {
 		r.Evs = append(r.Evs, e)
 	}
 	r.mu.Unlock()
+}
+
+// HeldLen is the number of held events (the index the next event will get).
+func (r *Recorder) HeldLen() int {
+	r.mu.Lock()
+	defer r.mu.Unlock()
+	return len(r.Evs)
+}
+
+// Release writes the held events; before the i-th held event it writes the
+// events insert(i) returns (insert(len) is called once more at the end).
+func (r *Recorder) Release(insert func(i int) []Ev) {
+	r.mu.Lock()
+	held := r.Evs
+	r.Evs = nil
+	r.Hold = false
+	r.N -= len(held)
+	for _, e := range held {
+		if op, ok := e["op"].(string); ok {
+			r.Cnt[op]--
+		}
+	}
+	r.mu.Unlock()
+	for i := 0; i <= len(held); i++ {
+		if insert != nil {
+			for _, x := range insert(i) {
+				r.Emit(x)
+			}
+		}
+		if i < len(held) {
+			r.Emit(held[i])
+		}
+	}
 }
 
 // Close flushes the trace.
